@@ -64,6 +64,15 @@ def gen(seed, tier):
         if r.random() < 0.35:
             o["M"] = r.choice(["17", "4+5", "99"])
         cases.append(H("C16-h%d" % i, o, [seg(0, stream(g, r.randint(1, 30)))]))
+    # frames the filter rejects do not drive the expiry sweep either: --delete-after 0 makes every sweep visible
+    for i in range(10 if tier == "quick" else 100):
+        o = {"d": 0, "f": "+".join(str(x) for x in r.sample([4, 5, 11, 17, 20, 21], r.randint(1, 3)))}
+        if i % 2:
+            o["U"] = 1
+        if i % 3 == 0:
+            o["c"] = 1
+        cases.append(H("C16-s%d" % i, o, [seg(0, stream(g, r.randint(12, 60)))]))
+        cases.append(("C16-t%d" % i, "C", opts_str(dict(o, i="x", u=-1, o="x")), seg(0, stream(g, r.randint(12, 60)))))
     return cases
 
 
@@ -71,7 +80,9 @@ def expected(parts):
     opts = pyspec.case_opts(parts)
     counts = {}
     keys = set()
+    sweeping = int(opts.get("d", "60")) <= 0     # --delete-after <= 0: the sweep (12th applied frame, then every 11th) empties the table
     for t, lines in pyspec.case_segments(parts):
+        applied = 0
         for ln in lines:
             fr = pyspec.frame_of_line(ln)
             if not fr or fr == "zero":
@@ -81,6 +92,9 @@ def expected(parts):
                 continue
             counts[df] = counts.get(df, 0) + 1
             keys.add(icao)
+            applied += 1
+            if sweeping and applied >= 12 and (applied - 12) % 11 == 0:
+                keys = set()
     return opts, counts, keys
 
 
